@@ -437,6 +437,27 @@ def r20_ptr_offset(sig, body):
 def r21_opcode_cast(sig, body):
     """R21: `OpCode::X as u8` -> `opcode_u8(OpCode::X)` (the cast of the #[repr(u8)] enum, by contract `== opcode_byte(X)`)"""
     body, n = re.subn(r'\bOpCode::(\w+)\s+as\s+u8\b', r'opcode_u8(OpCode::\1)', body)
+    # ... and `v as u8` where v is a parameter of type OpCode or a local initialised from OpCode variants
+    names = set(re.findall(r'\b(\w+)\s*:\s*&?\s*OpCode\b', sig))
+    for m in re.finditer(r'\blet\s+(?:mut\s+)?(\w+)\s*(?::\s*OpCode\s*)?=', body):
+        k, depth = m.end(), 0
+        while k < len(body):
+            c = body[k]
+            if c in '([{':
+                depth += 1
+            elif c in ')]}':
+                depth -= 1
+                if depth < 0:
+                    break
+            elif c == ';' and depth == 0:
+                break
+            k += 1
+        init = body[m.end():k]
+        if 'OpCode::' in init and ' as ' not in init:
+            names.add(m.group(1))
+    for v in sorted(names):
+        body, k = re.subn(r'\b%s\s+as\s+u8\b' % re.escape(v), 'opcode_u8(%s)' % v, body)
+        n += k
     return sig, body, n
 
 
